@@ -573,8 +573,8 @@ def grid(opname, tier, rng):
             (3, 4): [0, -1, (1, 2), (slice(None), 1), (slice(0, 2), slice(1, 4, 2)), (Ellipsis, 0), (0, Ellipsis), (None, 1), ([0, 0, 2],),
                      ([0, 2], [1, 1]), (slice(None), [0, 0, 3]), np.array([[True, False, True, False]] * 3), np.array([True, False, True]),
                      (slice(None, None, -1), slice(None, None, -2)), (1, None, slice(None)), (Ellipsis,), (slice(2, 0, -1),), ([1, 1, 1, 1],),
-                     (slice(None), [1, -3, 0]), ([0, 1, -3], [2, 3, -2]), ([2, -1],)],
-            (2, 3, 2): [(0,), (1, 2), (1, 2, 0), (Ellipsis, 1), (slice(None), slice(None), 0), (0, Ellipsis, 1), ([0, 0], slice(None), [1, 0]),
+                     (slice(None), [1, -3, 0]), ([0, 1, -3], [2, 3, -2]), ([2, -1],), [0, 2], [2, 2], [1, 0, 1], [True, False, True]],
+            (2, 3, 2): [[1, 0], [0, 0, 1], (0,), (1, 2), (1, 2, 0), (Ellipsis, 1), (slice(None), slice(None), 0), (0, Ellipsis, 1), ([0, 0], slice(None), [1, 0]),
                         (None, Ellipsis, None), (slice(None), [2, 0, 2]), (-1, -1, -1), (slice(None), 1, slice(None, None, -1))],
             (2, 2, 1, 3): [(1, 0), (Ellipsis, 0, 2), (slice(None), None, 1), ([1, 1, 0],), (0, slice(None), 0, [0, 0, 2])],
         }
